@@ -148,7 +148,12 @@ class Session:
             c2, gr, he = e.calc_chi2_gradient_hessian()
             return dg(c2, *[a for _, a in gr], *[a for _, a in he], str([i for i, _ in gr]), str([i for i, _ in he]))
         if q == 'equals':
-            return dg(bool(g.equals(copy.deepcopy(g))), bool(g.equals(g, 1e-9)))
+            # (also against a graph that really differs, in its VERTICES only: every heading moved by more than half a turn / positions by a few units)
+            h = copy.deepcopy(g)
+            for w in h._vertices:
+                w.pose[-1 if len(w.pose) == 3 else 0] += 3.5
+            r_hg = bool(h.equals(g, 1e-3))          # (the recorded graph as the ARGUMENT first: a comparison must not write into its argument either)
+            return dg(bool(g.equals(copy.deepcopy(g))), bool(g.equals(g, 1e-9)), bool(g.equals(h)), r_hg)
         if q == 'to_g2o':
             fd, path = tempfile.mkstemp(suffix='.g2o')
             os.close(fd)
@@ -186,12 +191,13 @@ class Session:
             b = [w.pose for w in g._vertices if type(w.pose) is type(a)][0]
             pt = np.array(a.position) * 0.5
             delta = np.full(a.COMPACT_DIMENSIONALITY, 0.125)
-            before = (dg(a), dg(b), dg(pt), dg(delta))
-            outs = [a + b, a - b, a.inverse, a + pt, a + delta, a.to_array(), a.to_compact(), a.position, np.atleast_1d(a.orientation), a.jacobian_boxplus(),
+            big = np.full(a.COMPACT_DIMENSIONALITY, 0.75)          # (for SE(3): a rotational increment OUTSIDE the boxplus domain, norm 1.3)
+            before = (dg(a), dg(b), dg(pt), dg(delta), dg(big))
+            outs = [a + b, a - b, a.inverse, a + pt, a + delta, a + big, a.to_array(), a.to_compact(), a.position, np.atleast_1d(a.orientation), a.jacobian_boxplus(),
                     a.jacobian_self_oplus_other_wrt_self(b), a.jacobian_self_ominus_other_wrt_other(b), a.jacobian_inverse()]
             if hasattr(a, 'to_matrix'):
                 outs.append(a.to_matrix())
-            self.ok = before == (dg(a), dg(b), dg(pt), dg(delta))
+            self.ok = before == (dg(a), dg(b), dg(pt), dg(delta), dg(big))
             return dg(*outs)
         if q == 'pose_copy':
             a = v.pose
